@@ -29,6 +29,7 @@ func init() {
 			{ID: "C05.R10", Floor: 4, Run: c03r6, Text: "Count over a relation filter sums over all matching nodes (= C03.R6): the running total is never overwritten"},
 			{ID: "C05.R11", Floor: 1, Run: c05r11, Text: "target map ⇄ table target: every insert archetypeMap[K] = T is preceded on every path by a call that sets T's RelationTarget to the same K (Init or Activate of that table); every delete from the map uses the removed table's own RelationTarget as key"},
 			{ID: "C05.R12", Floor: 2, Run: moversKeepDeadTargets, Text: "the target is unchanged by adding or removing other components, alive or not (= C06.R8)"},
+			{ID: "C05.R13", Floor: 20, Run: flagArgsNotComputed, Text: "option flags are not computed from values: at every call of an internal function with an (ID, bool) parameter pair the bool argument is a constant, a forwarded bool parameter, a stored flag or a presence test of a variadic argument - never derived from the value (the zero ID / zero entity are valid values)"},
 		},
 	})
 }
